@@ -1,10 +1,9 @@
 CONSTANTS
   Variant = "code"
   AtomSet = "full"
-  MaxAtoms = 2
+  MaxAtoms = 3
   MaxParts = 3
   Stride = 1
-INIT Init
-NEXT Next
-INVARIANT Contract
-INVARIANT AbsCommutes
+INIT InitAbs
+NEXT NextAbs
+INVARIANT ContractAbs
